@@ -163,6 +163,7 @@ Proof.
   - apply bind_ok in Hx as [ms [H1 H2]]. inversion H2; subst s'. rewrite st_models_set_ms.
     apply (fold_res_inv (do_input (s_merged s) (s_cur s)) CN) with (l := l) (a := st_models s) (a' := ms); auto.
     intros a t a' Ha Ht. unfold do_input in Ht. cbn [bind] in Ht. destruct (pni t) as [[p i]|]; [|discriminate]. cbn [bind] in Ht.
+    destruct (input_io (s_cur s) p a); [inversion Ht; subst; apply CN_grow_port; apply CN_ports; auto|].
     eapply CN_connect; [|exact Ht]. apply CN_grow_port. destruct (find_port _ _); [apply CN_ports; auto|apply CN_add_port; exact Ha].
   - apply bind_ok in Hx as [ms [H1 H2]]. inversion H2; subst s'. rewrite st_models_set_ms.
     apply (fold_res_inv (do_output (s_merged s) (s_cur s)) CN) with (l := l) (a := st_models s) (a' := ms); auto.
